@@ -270,6 +270,58 @@ template <> struct TT<Pod> {
   static Pod from(const cell* c) { Pod p; std::memset(&p, 0, sizeof p); p.a = (char)(int)c[0]; p.b = (double)(long long)c[1]; p.c = (short)c[2]; return p; }
   static std::vector<int> comm() { return {0, 1, 2}; }
 };
+// pairs with tail padding whose first member has no MPITraits specialisation (byte-wise fallback, alignment 1 for
+// MPI): the extent MPI would compute for the bare struct is smaller than sizeof, so arrays rely on the resize step
+using PairLC = std::pair<long long, char>;       // sizeof 16, members end at 9
+using PPair = std::pair<PairLC, short>;          // nested: sizeof 24, members end at 18
+using FVP = Dune::FieldVector<PairLC, 2>;        // contiguous(2, pair): strides by the pair's extent
+template <> struct TT<PairLC> {
+  static constexpr int E = 2;
+  static constexpr bool trueScalar = true;
+  static constexpr bool intrinsic = false;
+  static const char* name() { return "pairlc"; }
+  static void to(const PairLC& x, cell* c) { c[0] = x.first; c[1] = (signed char)x.second; }
+  static PairLC from(const cell* c) { return PairLC((long long)c[0], (char)(int)c[1]); }
+  static std::vector<int> comm() { return {0, 1}; }
+};
+template <> struct TT<PPair> {
+  static constexpr int E = 3;
+  static constexpr bool trueScalar = true, intrinsic = false, light = true;
+  static const char* name() { return "ppair"; }
+  static void to(const PPair& x, cell* c) { TT<PairLC>::to(x.first, c); c[2] = x.second; }
+  static PPair from(const cell* c) { return PPair(TT<PairLC>::from(c), (short)c[2]); }
+  static std::vector<int> comm() { return {0, 1, 2}; }
+};
+template <> struct TT<FVP> {
+  static constexpr int E = 4;
+  static constexpr bool trueScalar = false, intrinsic = false, light = true;
+  static const char* name() { return "fvp"; }
+  static void to(const FVP& x, cell* c) { TT<PairLC>::to(x[0], c); TT<PairLC>::to(x[1], c + 2); }
+  static FVP from(const cell* c) { FVP v; v[0] = TT<PairLC>::from(c); v[1] = TT<PairLC>::from(c + 2); return v; }
+  static std::vector<int> comm() { return {0, 1, 2, 3}; }
+};
+using Big40 = Dune::bigunsignedint<40>;   // 3 digits, 40 is not a multiple of the digit width
+struct Big40Acc : Dune::Impl::numeric_limits_helper<Big40> {
+  static std::uint16_t& d(Big40& x, std::size_t i) { return Dune::Impl::numeric_limits_helper<Big40>::digit(x, i); }
+};
+template <> struct TT<Big40> {
+  static constexpr int E = 1;
+  static constexpr bool trueScalar = true, intrinsic = false, light = true;
+  static const char* name() { return "big40"; }
+  static void to(const Big40& x, cell* c) {
+    Big40 y = x;
+    unsigned __int128 v = 0;
+    for (int i = Big40::n - 1; i >= 0; --i) v = (v << 16) | Big40Acc::d(y, i);
+    c[0] = (cell)v;
+  }
+  static Big40 from(const cell* c) {
+    Big40 x;
+    unsigned __int128 v = (unsigned __int128)c[0];
+    for (int i = 0; i < Big40::n; ++i) { Big40Acc::d(x, i) = (std::uint16_t)(v & 0xFFFF); v >>= 16; }
+    return x;
+  }
+  static std::vector<int> comm() { return {0}; }
+};
 template <class T, class = void> struct IsLight : std::false_type {};
 template <class T> struct IsLight<T, std::enable_if_t<TT<T>::light>> : std::true_type {};
 
@@ -312,11 +364,15 @@ template <class F> bool withType(const std::string& ty, F&& f) {
   else if (ty == "cldouble") f(Tag<CplxL>{});
   else if (ty == "llong") f(Tag<long long>{});
   else if (ty == "pod") f(Tag<Pod>{});
+  else if (ty == "pairlc") f(Tag<PairLC>{});
+  else if (ty == "ppair") f(Tag<PPair>{});
+  else if (ty == "fvp") f(Tag<FVP>{});
+  else if (ty == "big40") f(Tag<Big40>{});
   else return false;
   return true;
 }
 static bool isLightName(const std::string& ty) {
-  static const std::vector<std::string> L = {"uchar", "short", "ushort", "uint", "ulong", "float", "ldouble", "cfloat", "cldouble", "llong", "pod"};
+  static const std::vector<std::string> L = {"uchar", "short", "ushort", "uint", "ulong", "float", "ldouble", "cfloat", "cldouble", "llong", "pod", "ppair", "fvp", "big40"};
   return std::find(L.begin(), L.end(), ty) != L.end();
 }
 struct TyInfo { int E; std::vector<int> comm; };
@@ -353,15 +409,15 @@ template <class T, class F> bool withFun(const std::string& fn, F&& f) {
                               std::is_same_v<T, long double> || std::is_same_v<T, long long>;
   constexpr bool cplx = std::is_same_v<T, Cplx> || std::is_same_v<T, CplxF> || std::is_same_v<T, CplxL>;
   constexpr bool arith = std::is_same_v<T, int> || std::is_same_v<T, long> || std::is_same_v<T, double> || lightArith;
-  if constexpr (arith || cplx || std::is_same_v<T, FV3> || std::is_same_v<T, Big>)
+  if constexpr (arith || cplx || std::is_same_v<T, FV3> || std::is_same_v<T, Big> || std::is_same_v<T, Big40>)
     if (fn == "sum") { f(Tag<std::plus<T>>{}); return true; }
-  if constexpr (arith || cplx || std::is_same_v<T, Big>)
+  if constexpr (arith || cplx || std::is_same_v<T, Big> || std::is_same_v<T, Big40>)
     if (fn == "prod") { f(Tag<std::multiplies<T>>{}); return true; }
   if constexpr (std::is_same_v<T, int>)
     if (fn == "first") { f(Tag<First>{}); return true; }
   if constexpr (std::is_same_v<T, FV3>)
     if (fn == "aff") { f(Tag<Aff>{}); return true; }
-  if constexpr (arith || std::is_same_v<T, Big> || std::is_same_v<T, PairIC>) {
+  if constexpr (arith || std::is_same_v<T, Big> || std::is_same_v<T, Big40> || std::is_same_v<T, PairIC> || std::is_same_v<T, PairLC>) {
     if (fn == "min") { f(Tag<Dune::Min<T>>{}); return true; }
     if (fn == "max") { f(Tag<Dune::Max<T>>{}); return true; }
   }
@@ -373,12 +429,12 @@ template <class T, class F> bool withFun(const std::string& fn, F&& f) {
 }
 static std::vector<std::string> funsOf(const std::string& ty) {
   if (ty == "int") return {"sum", "prod", "min", "max", "xor", "first", "first"};
-  if (ty == "long" || ty == "double" || ty == "big96") return {"sum", "prod", "min", "max"};
+  if (ty == "long" || ty == "double" || ty == "big96" || ty == "big40") return {"sum", "prod", "min", "max"};
   if (ty == "uchar" || ty == "short" || ty == "ushort" || ty == "uint" || ty == "ulong" || ty == "float" || ty == "ldouble" || ty == "llong")
     return {"sum", "prod", "min", "max"};
   if (ty == "complex" || ty == "cfloat" || ty == "cldouble") return {"sum", "prod"};
   if (ty == "fv3") return {"sum", "cwmax", "aff", "aff"};
-  if (ty == "pair") return {"min", "max"};
+  if (ty == "pair" || ty == "pairlc") return {"min", "max"};
   return {};
 }
 
@@ -474,18 +530,20 @@ static void xfer(const TyInfo& ti, const Cells& src, size_t sElem, Cells& dst, s
     for (int c : ti.comm) dst.at((dElem + i) * ti.E + c) = src.at((sElem + i) * ti.E + c);
 }
 static const unsigned __int128 MASK96 = (((unsigned __int128)1) << 96) - 1;
+static const unsigned __int128 MASK48 = (((unsigned __int128)1) << 48) - 1;  // bigunsignedint<40> keeps 3 full digits
 static Cells redElem(const std::string& ty, const std::string& fn, const Cells& a, const Cells& b) {
   Cells r(a.size());
   auto lexLess = [](const Cells& x, const Cells& y) { return std::lexicographical_compare(x.begin(), x.end(), y.begin(), y.end()); };
   if ((ty == "complex" || ty == "cfloat" || ty == "cldouble") && fn == "prod") return {a[0] * b[0] - a[1] * b[1], a[0] * b[1] + a[1] * b[0]};
   if (fn == "first") return a;
   if (fn == "aff") return {(a[0] * b[0]) % 1009, (b[0] * a[1] + b[1]) % 1009, a[2] + b[2]};
-  if (ty == "pair") return fn == "min" ? (lexLess(b, a) ? b : a) : (lexLess(a, b) ? b : a);
+  if (ty == "pair" || ty == "pairlc") return fn == "min" ? (lexLess(b, a) ? b : a) : (lexLess(a, b) ? b : a);
   for (size_t i = 0; i < a.size(); ++i) {
-    if (ty == "big96") {
+    if (ty == "big96" || ty == "big40") {
       unsigned __int128 x = (unsigned __int128)a[i], y = (unsigned __int128)b[i];
-      if (fn == "sum") r[i] = (cell)((x + y) & MASK96);
-      else if (fn == "prod") r[i] = (cell)((x * y) & MASK96);
+      const unsigned __int128 MASK = ty == "big96" ? MASK96 : MASK48;
+      if (fn == "sum") r[i] = (cell)((x + y) & MASK);
+      else if (fn == "prod") r[i] = (cell)((x * y) & MASK);
       else if (fn == "min") r[i] = std::min(a[i], b[i]);
       else r[i] = std::max(a[i], b[i]);
     } else if (fn == "sum") r[i] = a[i] + b[i];
@@ -650,7 +708,7 @@ std::vector<T> callColl(CC& cc, const std::string& op, const Local& L) {
     if (form == "ptr") { ok(cc.scatter(in.data(), out.data(), n, root)); return out; }
     if (form == "i") {
       if constexpr (isMpi) {
-        if ((int)out.size() != n) throw Unsupported{};
+        if ((int)out.size() != n) throw Unsupported{};   // MPI requires matching send/receive counts in collectives
         return cc.iscatter(std::move(in), std::move(out), root).get();
       } else throw Unsupported{};
     }
@@ -726,6 +784,16 @@ std::vector<T> callLight(MpiComm& cc, const std::string& op, const Local& L) {
     return out;
   }
   if (base == "allgather" && form == "ptr") { ok(cc.allgather(in.data(), n, out.data())); return out; }
+  if (base == "gather" && form == "ptr") { ok(cc.gather(in.data(), out.data(), n, root)); return out; }
+  if (base == "scatter" && form == "ptr") { ok(cc.scatter(in.data(), out.data(), n, root)); return out; }
+  if (base == "scatterv" && form == "ptr") {
+    ok(cc.scatterv(in.data(), lens.data(), displs.data(), out.data(), lens[L.rank], root));
+    return out;
+  }
+  if (base == "allgatherv" && form == "ptr") {
+    ok(cc.allgatherv(in.data(), (int)in.size(), out.data(), lens.data(), displs.data()));
+    return out;
+  }
   throw Unsupported{};
 }
 
@@ -1150,9 +1218,30 @@ template <class T> Layout layoutOf() {
     Blocks b = changedBytes(x, [](Big& y) { y = ~y; });  // all 96 bits flip
     L.lay = {b[0].first, (long)Big::n, 2};
     L.comm = b;
+  } else if constexpr (std::is_same_v<T, Big40>) {
+    Big40 x(0u);
+    Blocks b = changedBytes(x, [](Big40& y) { y = ~y; });  // all digits flip
+    L.lay = {b[0].first, (long)Big40::n, 2};
+    L.comm = b;
   } else if constexpr (std::is_same_v<T, PairIC>) {
     L.lay = {(long)offsetof(PairIC, first), (long)sizeof(int), (long)offsetof(PairIC, second), 1, (long)sizeof(PairIC)};
     L.comm = {{L.lay[0], L.lay[1]}, {L.lay[2], L.lay[3]}};
+  } else if constexpr (std::is_same_v<T, PairLC>) {
+    L.lay = {(long)offsetof(PairLC, first), (long)sizeof(long long), (long)offsetof(PairLC, second), 1, (long)sizeof(PairLC)};
+    L.comm = {{L.lay[0], L.lay[1]}, {L.lay[2], L.lay[3]}};
+  } else if constexpr (std::is_same_v<T, PPair>) {
+    long oi = (long)offsetof(PPair, first), os = (long)offsetof(PPair, second);
+    L.lay = {(long)offsetof(PairLC, first), (long)sizeof(long long), (long)offsetof(PairLC, second), 1, (long)sizeof(PairLC), oi, os,
+             (long)sizeof(short), (long)sizeof(PPair)};
+    L.comm = {{oi + L.lay[0], L.lay[1]}, {oi + L.lay[2], L.lay[3]}, {os, (long)sizeof(short)}};
+  } else if constexpr (std::is_same_v<T, FVP>) {
+    FVP v;
+    long d = (long)((char*)&v[0] - (char*)&v);
+    L.lay = {d, 2, (long)offsetof(PairLC, first), (long)sizeof(long long), (long)offsetof(PairLC, second), 1, (long)sizeof(PairLC)};
+    for (long k = 0; k < 2; ++k) {
+      L.comm.push_back({d + k * (long)sizeof(PairLC) + L.lay[2], L.lay[3]});
+      L.comm.push_back({d + k * (long)sizeof(PairLC) + L.lay[4], L.lay[5]});
+    }
   } else if constexpr (std::is_same_v<T, PLI>) {
     PLI p(0, 0, false);
     Blocks a = changedBytes(p, [](PLI& q) { q.setAttribute(0x7f); });
@@ -1308,8 +1397,8 @@ static Result exec(const std::string& line) {
 // ------------------------------------------------------------------------------------------------------------------
 // generator
 // ------------------------------------------------------------------------------------------------------------------
-static const std::vector<std::string> ELEM_TYPES = {"int", "long", "double", "complex", "fv3", "big96", "pair", "ip", "pli"};
-static const std::vector<std::string> LIGHT_TYPES = {"uchar", "short", "ushort", "uint", "ulong", "float", "ldouble", "cfloat", "cldouble", "llong", "pod"};
+static const std::vector<std::string> ELEM_TYPES = {"int", "long", "double", "complex", "fv3", "big96", "pair", "pairlc", "ip", "pli"};
+static const std::vector<std::string> LIGHT_TYPES = {"uchar", "short", "ushort", "uint", "ulong", "float", "ldouble", "cfloat", "cldouble", "llong", "pod", "ppair", "fvp", "big40"};
 
 static cell rnd128(Rng& g, int bits) {
   unsigned __int128 v = ((unsigned __int128)g.next() << 64) | g.next();
@@ -1353,6 +1442,7 @@ static Cells genElem(Rng& g, const std::string& ty, const std::string& purpose) 
   if (ty == "short") return {ranged(-32768, 32767, 4)};
   if (ty == "ushort") return {ranged(0, 65535, 4)};
   if (ty == "uint") return {ranged(0, (cell)UINT_MAX, 20)};
+  if (ty == "ulong" && purpose == "half") return {pickInt(g, 0, (cell)LONG_MAX)};
   if (ty == "ulong") return {ranged(0, (cell)(unsigned __int128)ULONG_MAX, 500)};
   if (ty == "llong") return {ranged((cell)LLONG_MIN, (cell)LLONG_MAX, 256)};
   if (ty == "float") return {ranged(-P24, P24, 10)};
@@ -1378,7 +1468,19 @@ static Cells genElem(Rng& g, const std::string& ty, const std::string& purpose) 
       default: return {rnd128(g, 96)};
     }
   }
+  if (ty == "big40") {
+    switch (g.below(5)) {
+      case 0: return {0};
+      case 1: return {(cell)MASK48};
+      case 2: return {((cell)1) << (int)g.below(48)};
+      case 3: return {(cell)g.below(5)};
+      default: return {rnd128(g, 48)};
+    }
+  }
   if (ty == "pair") return {pickInt(g, INT_MIN, INT_MAX), pickInt(g, -128, 127)};
+  if (ty == "pairlc") return {pickInt(g, (cell)LLONG_MIN, (cell)LLONG_MAX), pickInt(g, -128, 127)};
+  if (ty == "ppair") return {pickInt(g, (cell)LLONG_MIN, (cell)LLONG_MAX), pickInt(g, -128, 127), pickInt(g, -32768, 32767)};
+  if (ty == "fvp") return {pickInt(g, (cell)LLONG_MIN, (cell)LLONG_MAX), pickInt(g, -128, 127), pickInt(g, (cell)LLONG_MIN, (cell)LLONG_MAX), pickInt(g, -128, 127)};
   auto pli = [&]() -> Cells {
     return {g.coin() ? (cell)g.below(10) : (g.coin() ? (cell)(unsigned __int128)SIZE_MAX : (cell)(unsigned __int128)g.next()),
             pickInt(g, -128, 127), (cell)g.below(2), (cell)g.below(2)};
@@ -1398,12 +1500,16 @@ static std::string genColl(Rng& g, int P) {
   Case k;
   k.comm = g.below(10) < 6 ? "world" : (g.coin() ? "seq" : "self");
   bool light = g.coin(1, 4);
+  // a dedicated stream of reductions with associative, non-commutative user functors on the world communicator
+  bool forceNc = P >= 2 && g.below(20) == 0;
+  if (forceNc) { light = false; k.comm = "world"; }
   if (light && k.comm == "seq") k.comm = "self";
   bool world = k.comm == "world", seq = k.comm == "seq";
   k.ty = light ? g.pick(LIGHT_TYPES) : g.pick(ELEM_TYPES);
-  bool trueScalar = k.ty != "fv3";
+  if (forceNc) k.ty = g.coin() ? "int" : "fv3";
+  bool trueScalar = k.ty != "fv3" && k.ty != "fvp";
   bool intr = k.ty == "int" || k.ty == "long" || k.ty == "double" || k.ty == "complex";
-  if (light) intr = !(k.ty == "llong" || k.ty == "pod");
+  if (light) intr = !(k.ty == "llong" || k.ty == "pod" || k.ty == "ppair" || k.ty == "fvp" || k.ty == "big40");
   int np = world ? P : 1;
   k.root = (int)g.below(P);
   k.n = genLen(g);
@@ -1413,10 +1519,12 @@ static std::string genColl(Rng& g, int P) {
   k.displs.assign(P, 0);
   k.ins.assign(P, {});
   std::vector<std::string> bases = {"red", "red", "red", "red", "bcast", "gather", "gatherv", "gatherv", "scatter", "scatterv", "scatterv", "allgather", "allgatherv", "allgatherv"};
-  if (light) bases = {"red", "red", "red", "red", "bcast", "gatherv", "gatherv", "allgather"};
+  if (light) bases = {"red", "red", "red", "red", "bcast", "gather", "gatherv", "scatter", "scatterv", "allgather", "allgatherv"};
   if (g.below(60) == 0) bases = {"barrier"};
   std::string base = g.pick(bases);
+  if (forceNc) base = "red";
   auto funs = funsOf(k.ty);
+  if (forceNc) funs = {k.ty == "int" ? "first" : "aff"};
   if (base == "red" && funs.empty()) base = "gatherv";
   std::string form = "ptr";
   if (base == "red") {
@@ -1431,10 +1539,13 @@ static std::string genColl(Rng& g, int P) {
     if (form == "iio" || form == "iip" || form == "rv") k.pad = 0;
     k.op = "red." + fn + "." + form;
     std::string purpose = (fn == "sum" || fn == "prod" || fn == "xor" || fn == "aff") ? fn : "any";
+    // Open MPI 4.1 evaluates MPI_MIN/MPI_MAX on MPI_UNSIGNED_LONG with a signed comparison (reproduced with a bare
+    // MPI_Allreduce, not dune-common's doing): keep those operands below 2^63
+    if (k.ty == "ulong" && purpose == "any") purpose = "half";
     // long arrays for user functors (everything that is not a predefined MPI_Op): MPI switches to other reduction
     // algorithms (ring, segmented) beyond ~10 kB, where operand order and bracketing differ from the short case
     bool userOp = !(namedFn && (intr || (light && k.ty != "llong")));
-    if (userOp && world && P >= 2 && (form == "ip" || form == "io") && g.coin(1, 8)) {
+    if (userOp && world && P >= 2 && (form == "ip" || form == "io") && g.coin(1, forceNc ? 3 : 8)) {
       k.n = (int)g.range(2600, 5200) / (k.ty == "fv3" ? 3 : (k.ty == "pair" ? 2 : 1));
       if (k.ty == "int" && fn != "sum" && fn != "prod") purpose = "small";
     }
@@ -1467,6 +1578,7 @@ static std::string genColl(Rng& g, int P) {
     std::vector<std::string> forms = {"ptr", "ptr"};
     if (!seq) forms.push_back("i");
     if (trueScalar) forms.push_back("isc");
+    if (light) forms = {"ptr"};
     form = g.pick(forms);
     if (form == "isc") k.n = 1;
     if (form != "ptr") k.pad = 0;
@@ -1568,7 +1680,7 @@ static std::string gen(Rng& g, long i, const Args& a) {
   int P;
   MPI_Comm_size(MPI_COMM_WORLD, &P);
   static const std::vector<std::string> TM = {"int", "long", "double", "char", "complex", "fv3", "big96", "pair", "pli", "ip",
-                                              "uchar", "short", "ushort", "uint", "ulong", "float", "ldouble", "cfloat", "cldouble", "llong", "pod"};
+                                              "uchar", "short", "ushort", "uint", "ulong", "float", "ldouble", "cfloat", "cldouble", "llong", "pod", "pairlc", "ppair", "fvp", "big40"};
   if (i < (long)TM.size()) return tmapLine(TM[i], 1 + (int)(i % 3));
   if (i == (long)TM.size()) return "misc np=" + std::to_string(P);
   int w = (int)g.below(100);
